@@ -877,6 +877,16 @@ fn k_scn(wakes: usize, also_waitable: bool, allow_cancel: bool) -> &'static str 
                 // C-ABI waitable callback would do exactly this)
                 if let Some(w) = w {
                     w.wake_by_ref();
+                    // A task that told the host to WAIT can only run again through an event of
+                    // its set: a wake that leaves no event ready for it is a lost wakeup, even
+                    // if some unrelated waitable may resolve later.
+                    with(|h| {
+                        if let host::TaskStatus::Waiting(s) = h.tasks[0].status {
+                            if h.ready(s).is_empty() {
+                                violation("C23", "wakeup:no-event-for-waiting-task", format!("the task waits on set {s}; another party woke it, but no event became ready in that set (the wake cannot reach the task until an unrelated waitable fires)"));
+                            }
+                        }
+                    });
                 }
                 true
             }),
@@ -936,6 +946,13 @@ fn k3_scn(b_yields: usize, allow_cancel: bool) -> &'static str {
         };
         if let Some(w) = w {
             w.wake();
+            with(|h| {
+                if let host::TaskStatus::Waiting(s) = h.tasks[0].status {
+                    if h.ready(s).is_empty() {
+                        violation("C23", "wakeup:no-event-for-waiting-task", format!("task 0 waits on set {s}; task 1 woke it, but no event became ready in that set"));
+                    }
+                }
+            });
         }
     });
     let how = driver::run(&Opts { allow_cancel, ..Opts::default() }, &mut vec![]);
